@@ -134,12 +134,15 @@ TEXTS = {
         "design_ref": "DESIGN.md §4 C10", "note": NOTE_COMMON + "str::contains modelled as byte-level infix.", "technique": TECH,
     },
     "C11": {
-        "text": "Theorems (Properties/C11.v): the reference distance sd used by the executable statement is the length of an actual parent chain "
-                "and is minimal over all chains (any fuel bound), chains are walks. spec_C11 compares every distance the crate reports with sd "
-                "over the reported parent links, distance_to_term with the minimum over common ancestors, and checks every reported path link "
-                "by link (a walk of exactly the reported distance). The Gallina transcription of distance_to_ancestor / path_to_ancestor / "
-                "distance_to_term / path_to_term is diffed against the crate on ALL ordered pairs of each generated ontology.",
-        "design_ref": "DESIGN.md §4 C11", "note": NOTE_COMMON + "Acyclic inputs only. Paths compared for validity and length, not identity.", "technique": TECH,
+        "text": "Theorems (Properties/C11.v): about the Gallina transcription of distance_to_ancestor, for every ontology with exact ancestor "
+                "caches and every fuel — the returned distance is the length of an actual chain of parent links, no chain is shorter, the "
+                "cache-based pruning never cuts a reachable target, None iff the target is neither the term nor an ancestor; and about the "
+                "reference distance sd used by the executable statement (a chain length, minimal over all chains; chains are walks). "
+                "PARTIAL: path_to_ancestor / distance_to_term / path_to_term have no transcription-level theorem yet; spec_C11 compares every "
+                "distance the crate reports with sd over the reported parent links, distance_to_term with the minimum over common ancestors, "
+                "and checks every reported path link by link (a walk of exactly the reported distance); the transcription of the four queries "
+                "is diffed against the crate on ALL ordered pairs of each generated ontology and on selected pairs of 70-130-term chains.",
+        "design_ref": "DESIGN.md §4 C11, §9", "note": NOTE_COMMON + "Acyclic inputs only. Paths compared for validity and length, not identity.", "technique": TECH,
     },
     "C13": {
         "text": "Theorems (Properties/C13.v, about the Gallina transcription): without_obsolete / with_replaced_obsolete are exactly the stated "
